@@ -15,6 +15,7 @@ SeqSteps == { <<S("A","none",FALSE), S("B","none",FALSE)>>,
 KlSteps == { <<S("A","none",FALSE), S("B","none",TRUE), S("C","none",FALSE)>>,
              <<S("A","none",FALSE), S("B","ge1",TRUE), S("C","none",FALSE)>>,
              <<S("A","none",FALSE), S("B","gtself",TRUE), S("C","none",FALSE)>>,
+             <<S("A","none",FALSE), S("B","gtself_leprev",TRUE), S("C","none",FALSE)>>,
              <<S("A","none",FALSE), S("B","none",TRUE)>> }
 P(s, pt, ng, mr, st, mk, me) == [steps |-> s, part |-> pt, negs |-> ng, maxRuns |-> mr, strat |-> st, maxK |-> mk, maxEnum |-> me]
 Ng(t, f) == [type |-> t, f |-> f]
